@@ -154,7 +154,8 @@ static int rd_modify(MPT_INTERFACE(rawdata) *ptr, unsigned dim, const MPT_STRUCT
 static int rd_advance(MPT_INTERFACE(rawdata) *ptr)
 {
 	MPT_STRUCT(RawData) *rd = MPT_baseaddr(RawData, ptr, _rd);
-	const MPT_STRUCT(buffer) *buf;
+	const MPT_STRUCT(type_traits) *stage_traits;
+	MPT_STRUCT(buffer) *buf;
 	long act;
 	
 	/* limit cycle size */
@@ -166,8 +167,18 @@ static int rd_advance(MPT_INTERFACE(rawdata) *ptr)
 	    && act < (long) (buf->_used / sizeof(MPT_STRUCT(rawdata_stage)))) {
 		return act;
 	}
-	/* add cycle placeholder */
-	if (!mpt_array_append(&rd->st, sizeof(MPT_STRUCT(rawdata_stage)), 0)) {
+	/* add typed cycle placeholder, stage content must be finalized with buffer */
+	if (!(stage_traits = mpt_stage_traits())) {
+		return 0;
+	}
+	if (!buf) {
+		if (!(buf = _mpt_buffer_alloc(stage_traits->size, 0))) {
+			return 0;
+		}
+		buf->_content_traits = stage_traits;
+		rd->st._buf = buf;
+	}
+	if (!mpt_array_slice(&rd->st, buf->_used, stage_traits->size)) {
 		return 0;
 	}
 	rd->act = act;
